@@ -79,8 +79,8 @@ prop('C05',
      twin=['tz'],
      uncovered=['POSIX TZ rule lookups: only safety, result shape and earliest-first ordering are proved; that the DST interval tests pick the prescribed type for every instant is covered by the tz twin only',
                 'Local / Cache::offset glue (reads environment and file system)', 'zones with leap-second records', 'zoneinfo database enumeration (configurations)',
-                'TimeZoneRef::validate is only bounded (<= 2 transitions)'],
-     text='Verus proves, for transition tables of ANY length (well-formedness as established by validate(); hypothesis tz_ordered on the zone data: the wall-clock windows disturbed by '
+                'validate() accepts every well-formed table (the converse direction) is only bounded (<= 2 transitions)'],
+     text='Verus proves, for transition tables of ANY length (validate() returning Ok implies the well-formedness used below -- proved on its real text; hypothesis tz_ordered on the zone data: the wall-clock windows disturbed by '
           'consecutive transitions are disjoint and ordered), on the real text: find_local_time_type returns the type of the last transition at or before the instant (first type before the first, '
           'last type after the last; std binary search through its documented contract); find_local_time_type_from_local returns only sound candidates (wall -> instant -> wall is the identity), '
           'Ambiguous lists the earlier instant first with distinct offsets, and the classification is EXACT: None only when no interval produces the wall-clock time, Single when exactly one does, '
